@@ -104,6 +104,26 @@ impl Script for C14Script {
                 w.log(&format!("evict_mid_paging node={} marker={m}", rq.node));
             }
         }
+        // A BATCH may find (some of) its statements evicted on arrival - also the ones the
+        // driver prepared on the fly just before sending the batch.
+        if let (Request::Batch(b), Some(m)) = (req, rq.marker) {
+            if !self.evicted_mid_paging.contains(&m) && tape::chance("c14:evict_on_batch", 1, 5) {
+                self.evicted_mid_paging.insert(m);
+                let mut any = false;
+                for (st, _) in &b.statements {
+                    if let BatchStmt::Prepared(id) = st {
+                        any |= w.cluster.nodes[rq.node].prepared.remove(id).is_some();
+                        if tape::chance("c14:evict_on_batch_first_only", 1, 2) {
+                            break;
+                        }
+                    }
+                }
+                if any {
+                    w.fault(Fault::Evict);
+                    w.probe("evicted_on_batch_arrival");
+                }
+            }
+        }
         Reply::Default
     }
     fn rows_for(&mut self, _w: &mut World, rq: &ReqInfo, stmt: &StmtDef) -> Vec<Vec<crate::wire::Cell>> {
@@ -264,6 +284,7 @@ pub fn run(req: &RunRequest) -> Value {
         }
         client::standard_catalog(&mut cluster, Strategy::Simple(plan.nodes.min(3)), false);
         cluster.features.metadata_id_ext = plan.md_ext;
+        cluster.features.metadata_despite_skip_permille = [0, 250][tape::choose("c14:md_despite_skip", 2) as usize];
         cluster.think_min = 0;
         cluster.think_max = [MS, 20 * MS][tape::choose("c14:think", 2) as usize];
         let net = NetCfg {
@@ -416,8 +437,14 @@ async fn main(plan: Plan) -> Outcome {
                         2 => col("ks1", "t1", &format!("x{v}"), CType::Int),
                         _ => col("ks1", "t1", &format!("y{v}"), CType::List(Box::new(CType::BigInt))),
                     };
-                    // New columns are inserted in front or appended (SELECT * order changes).
-                    if v % 2 == 0 {
+                    // New columns are inserted in front or appended (SELECT * order changes),
+                    // or - keeping the column count - the last column is replaced by one of
+                    // another name and type (dropped and re-added).
+                    let n_cols = w.cluster.catalog[idx].result_cols.len();
+                    if n_cols >= 2 && tape::chance("c14:schema_same_count", 1, 3) {
+                        w.cluster.catalog[idx].result_cols[n_cols - 1] = newcol;
+                        w.probe("schema_change_same_column_count");
+                    } else if v % 2 == 0 {
                         w.cluster.catalog[idx].result_cols.insert(0, newcol);
                     } else {
                         w.cluster.catalog[idx].result_cols.push(newcol);
@@ -507,7 +534,13 @@ async fn main(plan: Plan) -> Outcome {
                         .and_then(decode),
                     (2, None) => {
                         let mut b = Batch::default();
-                        b.append_statement((*ins).clone());
+                        // 1 in 3: the first statement is given as text with values - the
+                        // driver prepares it on the connection right before the BATCH.
+                        if m / 16 % 3 == 0 {
+                            b.append_statement(idem(INS));
+                        } else {
+                            b.append_statement((*ins).clone());
+                        }
                         b.append_statement((*upd).clone());
                         b.set_is_idempotent(true);
                         session
@@ -753,7 +786,13 @@ async fn main(plan: Plan) -> Outcome {
                 let transport = ["roken", "onnection", "imed out", "imeout", "pool", "repared", "Unable to allocate"];
                 if !transport.iter().any(|t| e.contains(t)) {
                     if let Some(last) = execs.iter().rev().find(|x| x.marker == Some(o.marker)) {
-                        if matches!(last.answer, Answer::Rows { with_metadata: true, .. }) && conn_alive_at(last.conn) {
+                        // A paged execution consumed several answers: any page sent without
+                        // its metadata may be the one that could not be decoded.
+                        let every_page_with_metadata = execs
+                            .iter()
+                            .filter(|x| x.marker == Some(o.marker))
+                            .all(|x| !matches!(x.answer, Answer::Rows { with_metadata: false, .. }));
+                        if every_page_with_metadata && matches!(last.answer, Answer::Rows { with_metadata: true, .. }) && conn_alive_at(last.conn) {
                             out.violation(
                                 "c14.rows_undecodable",
                                 format!("marker {}: the server answered with rows and their metadata but the caller got: {e}", o.marker),
